@@ -678,8 +678,38 @@ pub unsafe extern "C" fn recv(fd: c_int, buf: *mut c_void, n: usize, flags: c_in
         let is_srv = SERVER_FDS.lock().map(|g| g.as_ref().map_or(false, |s| s.contains(&fd))).unwrap_or(false);
         if is_srv {
             NRECV.fetch_add(1, Ordering::SeqCst);
-            let cap = RECV_SCRIPT.lock().ok().and_then(|mut s| s.pop()).unwrap_or_else(|| RECV_DEFAULT.load(Ordering::SeqCst));
-            n2 = n.min(cap.max(1));
+            // exact segmentation: the next scripted segment is handed over only once all of it has
+            // arrived (until then the socket looks empty; its arrival raises a new readiness edge)
+            let top = RECV_SCRIPT.lock().ok().and_then(|s| s.last().copied());
+            if let Some(cap) = top {
+                let cap = cap.max(1);
+                let mut avail: c_int = 0;
+                libc::ioctl(fd, libc::FIONREAD, &mut avail);
+                if (avail as usize) < cap {
+                    // peer closed with less than a segment outstanding: fall through to the real call
+                    let mut p = libc::pollfd { fd, events: libc::POLLRDHUP | libc::POLLHUP, revents: 0 };
+                    let hup = libc::poll(&mut p, 1, 0) > 0 && (p.revents & (libc::POLLRDHUP | libc::POLLHUP | libc::POLLERR)) != 0;
+                    if !hup {
+                        seterr(libc::EAGAIN);
+                        return -1;
+                    }
+                }
+                n2 = n.min(cap);
+                let r = libc::syscall(libc::SYS_recvfrom, fd, buf, n2, flags, 0usize, 0usize) as isize;
+                if r > 0 {
+                    if let Ok(mut sc) = RECV_SCRIPT.lock() {
+                        if let Some(t) = sc.last_mut() {
+                            if (r as usize) >= *t {
+                                sc.pop();
+                            } else {
+                                *t -= r as usize;
+                            }
+                        }
+                    }
+                }
+                return r;
+            }
+            n2 = n.min(RECV_DEFAULT.load(Ordering::SeqCst).max(1));
         }
     }
     libc::syscall(libc::SYS_recvfrom, fd, buf, n2, flags, 0usize, 0usize) as isize
